@@ -105,6 +105,7 @@ class LeanStatus:
         self.audit = {}            # theorem -> sorted list of axioms, or None when missing
         self.forbidden = []        # "file:line: token"
         self.tables_changed = []
+        self.leanchecker = None
         self.wall = 0.0
 
     @property
@@ -205,6 +206,15 @@ def lean_prepare(mod, ctx) -> LeanStatus:
                 else:
                     st.build_log += '\n[audit] ' + out[-1500:]
             st.audit = {t: cached.get(t) for t in thms}
+        # thorough tier: independent re-check of the compiled proof modules with leanchecker
+        if st.build_ok and ctx.tier == 'thorough' and not os.environ.get('VERIF_NO_LEANCHECKER'):
+            mods = [tg for tg in targets if tg.startswith('CpProofs')]
+            if mods:
+                rc, out = _run(['lake', 'env', 'leanchecker'] + mods, cwd=LEAN, timeout=1800)
+                st.leanchecker = {'modules': mods, 'ok': rc == 0, 'output': out[-400:]}
+                if rc != 0:
+                    st.build_ok = False
+                    st.build_log += '\n[leanchecker] ' + out[-1500:]
     finally:
         fcntl.flock(lockf, fcntl.LOCK_UN)
         lockf.close()
@@ -410,6 +420,7 @@ def write_evidence(ctx, violations, wall):
         'lean_build_ok': bool(st and st.build_ok),
         'lean_problems': st.problems() if st else ['lean not run'],
         'tables_regenerated': st.tables_changed if st else [],
+        'leanchecker': st.leanchecker if st else None,
         'evaluations': ctx.evaluations,
         'distinct_nontrivial': len(ctx._nontrivial),
         'rule': getattr(mod, 'RULE', ''),
